@@ -22,6 +22,19 @@ def lastApplied (p : Nat) (h : List Ev) : Option Nat :=
     | _ :: rest => go reqs cur rest
   go [] none h
 
+/-- is partition `p` tainted at the end of the history: the fault layer rewrote one of its successful answers
+into an error (`taint p`) and no later answer for `p` was a success -/
+def taintedAtEnd (p : Nat) (h : List Ev) : Bool :=
+  let rec go (cur : Bool) : List Ev → Bool
+    | [] => cur
+    | .taint q :: rest => go (cur || q == p) rest
+    | .wireResp _ q err :: rest => go (cur && !(q == p && err == 0)) rest
+    | _ :: rest => go cur rest
+  go false h
+
+/-- was topic `t` deleted during the history -/
+def topicDeleted (t : Nat) (h : List Ev) : Bool := h.any (fun e => e == .topicDeleted t)
+
 def isIncomplete (h : List Ev) : Bool := h.any (fun e => e == .incomplete)
 
 end Proof.Commit
